@@ -43,6 +43,9 @@ ASSUMPTIONS = [
     "n <= 40 vertices for the proved oracle (<= ~135 simplices); up to 700 vertices against the second route only",
     "moduli: primes <= 65521 (the largest accepted: inverse table of uint16_t); composite or larger moduli must be refused by an exception",
     "vertex_t = int, dimension_t = int8_t, simplex_t = uint64_t / unsigned __int128 (and the portable Fake_uint128 in a second build)",
+    "the budget of the encodings is part of the contract: dim_max is clamped to min(n-2, 125) (dimension_t = int8_t; lossless, see design/C11.md) and an "
+    "input whose simplices cannot be indexed in 128 bits (cns table overflow, or no room for the coefficient) must be REFUSED by overflow_error - "
+    "the check demands an exception there, never an answer",
 ]
 
 CAP = 135                # simplices handled by the certified oracle
